@@ -114,6 +114,10 @@ def gen_cases(rng, tier):
             kinds = ["GS1", "GS2", "G", "C"]    # groups of one name and one flat layout over different member types
         hist = [[r.below(nw), rec_of(r.choice(kinds), r)] for _ in range(ln)]
         case = {"writers": nw, "history": hist}
+        if nw > 1 and r.chance(30):
+            # some objects are written to two writers (one record object, two outputs): what the first writer emitted
+            # for it must not be missing from the second
+            case["tee"] = sorted(set(r.sample(list(range(ln)), r.randint(1, min(3, ln)))))
         if r.chance(15):
             # one write that fails (the record cannot be serialised), placed before / between good records of its type
             w_ = r.below(nw)
@@ -196,8 +200,13 @@ def run_real(case):
     with warnings.catch_warnings():
         warnings.simplefilter("ignore")
         nw = case["writers"]
-        recs = [(w, V.build(s)) for w, s in case["history"]]
-        spec_of = {id(rec): s for (_, s), (_, rec) in zip(case["history"], recs)}
+        built = [(w, V.build(s)) for w, s in case["history"]]
+        spec_of = {id(rec): s for (_, s), (_, rec) in zip(case["history"], built)}
+        recs = []
+        for idx, (w, rec) in enumerate(built):
+            recs.append((w, rec))
+            if idx in case.get("tee", ()):
+                recs.append(((w + 1) % nw, rec))      # the SAME object goes to a second writer as well (a tee)
         for _, rec in recs:
             if getattr(rec, "s", None) == "\ud800" and getattr(rec, "n", None) == -1:
                 rec.n = 10 ** 5000           # beyond CPython's int-to-text limit: json.dumps raises ValueError
@@ -383,9 +392,10 @@ def classify(case, obs):
 
 def shrink(case):
     h = case["history"]
+    tee = case.get("tee", [])
     if len(h) > 1:
         for i in range(len(h)):
-            yield dict(case, history=h[:i] + h[i + 1:])
+            yield dict(case, history=h[:i] + h[i + 1:], tee=[t if t < i else t - 1 for t in tee if t != i])
     if case["writers"] > 1:
         yield dict(case, writers=1, history=[[0, s] for _, s in h])
 
